@@ -229,6 +229,22 @@ def finish(a, ev, t0, violations, undecided, known=None, record=False):
                 r.update(confirmed_on_real_code=True, refuter_finding=refuted,
                          note=(r.get('note', '') + ' | a failing input of the real code was found by the structured refutation search (vx/refute.py)').strip(' |'))
                 break
+    # stand-ins (labelled tests, never proofs): functions of this property that no contract reaches are driven on structured inputs
+    # against the independent reference on every run; a disagreement is a violation with its failing input
+    st_names = props.PROPS.get(a.prop, {}).get('standins', [])
+    if st_names:
+        from vx import refute
+        ev['coverage']['stand_ins'] = []
+        for nme, desc, evals, fail, note in refute.run_standins(st_names):
+            ev['coverage']['stand_ins'].append(dict(name=nme, covers=desc, evaluations=evals, status=('DISAGREES' if fail else 'agrees') if evals else 'not run',
+                                                    note=note, label='tested (structured differential test of the compiled crate against an independent Python reference; '
+                                                    'not a proof, not counted in obligations / discharged)'))
+            if fail:
+                i = len(violations)
+                violations = violations + [dict(unit='standin', obligation=(nme + '-' + fail['function']).replace(':', '_').replace(',', '_').replace('=', '_'),
+                                                errors=[dict(msg='stand-in test: the real code disagrees with the reference', line=0, file='', fn=fail['function'])], ring=None)]
+                reps[i] = dict(property=a.prop, unit='standin', failed_obligation=nme + ': ' + fail['function'], verifier_output=[], confirmed_on_real_code=True,
+                               **{k: fail[k] for k in ('input', 'actual', 'expected', 'command')})
     for i, v in enumerate(violations):
         kf = match_known(known, a.prop, v)
         if kf:
